@@ -194,3 +194,110 @@ R("compose-path-normalised",
 R("ini-no-spaces-discinfo-newline",
   (DI, '        f.write("\\n".join(parser))', '        f.write("\\n".join(parser) + "\\n")'),
   (TI, "        parser.write(f)", "        parser.write(f, space_around_delimiters=False)"))
+
+# --- aimed at the history / entry-point monitors added after seeded round 3 ---------------------------------
+
+# parse_nvra memoised CORRECTLY: the memo stores a private copy and every call returns a fresh dict
+R("parse-nvra-safe-memo",
+  (CM, '''    if nvra.endswith(".rpm"):
+        nvra = nvra[:-4]
+    match = RPM_NVRA_RE.match(nvra)
+    if match is None:
+        raise ValueError("Invalid N-E:V-R.A: %s" % nvra)
+    result = match.groupdict()
+    result["epoch"] = result["epoch"] or 0
+    result["epoch"] = int(result["epoch"])
+    return result
+''', '''    if nvra.endswith(".rpm"):
+        nvra = nvra[:-4]
+    cached = _NVRA_MEMO.get(nvra)
+    if cached is not None:
+        return dict(cached)
+    match = RPM_NVRA_RE.match(nvra)
+    if match is None:
+        raise ValueError("Invalid N-E:V-R.A: %s" % nvra)
+    result = match.groupdict()
+    result["epoch"] = result["epoch"] or 0
+    result["epoch"] = int(result["epoch"])
+    if len(_NVRA_MEMO) < 4096:
+        _NVRA_MEMO[nvra] = dict(result)
+    return result
+
+
+_NVRA_MEMO = {}
+'''))
+
+# compose-id decoder memoised correctly: only finished, accepted results are stored
+R("date-type-respin-safe-memo",
+  (CI, '''def get_date_type_respin(compose_id):
+    pattern = re.compile(''', '''_DECODED = {}
+
+
+def get_date_type_respin(compose_id):
+    if compose_id not in _DECODED:
+        result = _get_date_type_respin(compose_id)
+        if len(_DECODED) < 4096:
+            _DECODED[compose_id] = result
+        return result
+    return _DECODED[compose_id]
+
+
+def _get_date_type_respin(compose_id):
+    pattern = re.compile('''))
+
+# DiscInfo: validation moved from the end of deserialize() into load() (which loads() goes through): same gate on
+# every entry point
+R("discinfo-validate-in-load",
+  (DI, '''            self.disc_numbers = [int(i) for i in disc_numbers.split(",")]
+        self.validate()
+
+    def serialize(self, parser):''', '''            self.disc_numbers = [int(i) for i in disc_numbers.split(",")]
+
+    def load(self, f):
+        super(DiscInfo, self).load(f)
+        self.validate()
+
+    def serialize(self, parser):'''))
+
+# Rpms readers: the compose section is read once in deserialize(); both readers still start from an empty mapping
+R("rpms-compose-hoisted",
+  (RP, '''        self.header.deserialize(data)
+        if self.header.version_tuple <= (0, 3):
+            self.deserialize_0_3(data)''', '''        self.header.deserialize(data)
+        self.compose.deserialize(data["payload"])
+        if self.header.version_tuple <= (0, 3):
+            self.deserialize_0_3(data)'''),
+  (RP, '''    def deserialize_0_3(self, data):
+        self.compose.deserialize(data["payload"])
+        payload = data["payload"]["manifest"]''', '''    def deserialize_0_3(self, data):
+        payload = data["payload"]["manifest"]'''),
+  (RP, '''    def deserialize_1_0(self, data):
+        self.compose.deserialize(data["payload"])
+        self.rpms = data["payload"]["rpms"]''', '''    def deserialize_1_0(self, data):
+        self.rpms = data["payload"]["rpms"]'''))
+
+# Modules.add: the RPM list is copied and sorted-merged through a local; the caller's list is never kept
+R("modules-add-local-copy",
+  (MO, '''        metadata.setdefault("rpms", []).extend(list(rpms))''', '''        merged = list(metadata.get("rpms", []))
+        merged.extend(rpms)
+        metadata["rpms"] = merged'''))
+
+# checksum helper: file size looked at first, hashing in 64 KiB chunks through a bytearray
+R("checksum-readinto",
+  (TI, '''    checksum = hashlib.new(checksum_type)
+    with open(path, "rb") as fo:
+        while True:
+            chunk = fo.read(1024**2)
+            if not chunk:
+                break
+            checksum.update(chunk)
+    return checksum.hexdigest().lower()''', '''    checksum = hashlib.new(checksum_type)
+    buf = bytearray(64 * 1024)
+    view = memoryview(buf)
+    with open(path, "rb", buffering=0) as fo:
+        while True:
+            n = fo.readinto(buf)
+            if not n:
+                break
+            checksum.update(view[:n])
+    return checksum.hexdigest().lower()'''))
